@@ -159,7 +159,7 @@ extern int global_var%(k)d;
 END_PUBLISH
 """
 
-# a header that is included but not named on the command line: its types become external imports
+# a header found through -I (not in the source directory): its types become external imports
 EXT = """#ifndef EXT%(k)d_H
 #define EXT%(k)d_H
 class X1_%(k)d {
@@ -281,7 +281,7 @@ def lib_job(a):
     k, d, tier, shuf = a
     hid = hidden(tier)
     res = dict(k=k, runs=[], mods=[], traces=[], n=0, fail=[])
-    base = ["-DCPPPARSER", "-S" + os.path.join(REPO, "parser-inc"), "-srcdir", d, "-module", "vm",
+    base = ["-DCPPPARSER", "-S" + os.path.join(REPO, "parser-inc"), "-Iinc", "-srcdir", d, "-module", "vm",
             "-library", "lib%d" % k]
     for be in BACKENDS:
         tag = be.strip("-").replace("-", "")
@@ -436,7 +436,8 @@ def run_check(ctx):
         os.makedirs(d)
         text, names = render_lib(k, mine)
         open(os.path.join(d, "lib%d.h" % k), "w").write(text)
-        open(os.path.join(d, "ext%d.h" % k), "w").write(EXT % dict(k=k))
+        os.makedirs(os.path.join(d, "inc"))      # found through -I: not "local", so its types are external imports
+        open(os.path.join(d, "inc", "ext%d.h" % k), "w").write(EXT % dict(k=k))
         libs.append((k, d, tier, shuf))
         index[k] = names
     results = run.pmap(lib_job, libs, workers=min(NCPU, 12))
